@@ -54,12 +54,18 @@ def lattice(rng, n, m, r, kind):
         X = X * (2 ** rng.integers(0, 4, size=m))
     elif kind == "ties":
         X = rng.integers(0, 2, size=(n, m)) * r
+    elif kind == "onehot":
+        X = np.zeros((n, m), dtype=np.int64)
+        X[np.arange(n), rng.integers(0, m, size=n)] = rng.integers(1, r + 1, size=n)
+    elif kind == "zeroitem":
+        X[int(rng.integers(n))] = 0          # one sample ...
+        X[:, int(rng.integers(m))] = 0       # ... and one feature without any content
     if not np.any(X):
         X[0, 0] = 1
     return X.astype(np.int64)
 
 
-KINDS = ["full", "full", "dupcols", "duprows", "lowrank", "clustered", "scaled", "ties"]
+KINDS = ["full", "full", "dupcols", "duprows", "lowrank", "clustered", "scaled", "ties", "onehot", "zeroitem"]
 
 
 def q(v, unit):
